@@ -11,6 +11,7 @@ package main
 // Direct oracle: every signed field identical, signed byte strings identical, verification preserved.
 
 import (
+	"errors"
 	"bytes"
 	"encoding/hex"
 	"fmt"
@@ -92,6 +93,13 @@ func init() {
 			v, _ := accountant.NewVertex(t, [32]byte{1}, [32]byte{2}, 5, n.w)
 			return v
 		}
+		var prevStored, firstRead, firstOrig *accountant.Vertex
+		defer func() {
+			// the very first value read from storage, after everything else was saved and read
+			if firstRead != nil && !signedEqual(firstRead, firstOrig) {
+				c.Violate("C19", "storage-read-changes-signed-field", "the first vertex read from storage changed while hundreds of others were saved and read", map[string]interface{}{"section": "codec", "case": "long-lived read result"})
+			}
+		}()
 		check := func(v accountant.Vertex, what string) {
 			c.Rep.Evals++
 			c.Distinct(what)
@@ -112,6 +120,39 @@ func init() {
 			}
 			if !signedEqual(&v, &dec) {
 				c.Violate("C19", "storage-codec-changes-signed-field", what+": a signed field differs after msgpack encode/decode", info)
+			}
+			// ---- the real storage (what truncate writes, what ReadVertex / ReadTransactionByHash read for
+			// vertices that left the live DAG): save, read back, then read ANOTHER stored vertex and look at
+			// the first result again - a value read from storage stays what it was
+			if len(enc) < 200000 {
+				if err := n.ab.VerifSaveVertexToStorage(&v); errors.Is(err, accountant.ErrVertexAlreadyExists) {
+					c.Count("storage.same-hash-already-stored") // the case reuses a hash already saved: nothing to learn
+				} else if err != nil {
+					c.Violate("C19", "storage-save-fails", what+": "+err.Error(), info)
+				} else {
+					r1, err1 := n.ab.VerifReadVertexFromStorage(v.Hash[:])
+					t1, err2 := n.ab.VerifReadTransactionFromStorage(v.Hash[:])
+					if prevStored != nil {
+						r0, err0 := n.ab.VerifReadVertexFromStorage(prevStored.Hash[:])
+						if err0 != nil || !signedEqual(prevStored, &r0) {
+							c.Violate("C19", "storage-read-changes-signed-field", what+": the previously stored vertex reads back differently", info)
+						}
+					}
+					c.Count("storage.roundtrip")
+					if err1 != nil || !signedEqual(&v, &r1) {
+						c.Violate("C19", "storage-read-changes-signed-field", fmt.Sprintf("%s: a signed field differs after save / read / another read (err %v)", what, err1), info)
+					}
+					if err2 != nil || !bytes.Equal(t1.GetMessage(), v.Transaction.GetMessage()) || t1.Hash != v.Transaction.Hash ||
+						!bytes.Equal(t1.IssuerSignature, v.Transaction.IssuerSignature) || !bytes.Equal(t1.ReceiverSignature, v.Transaction.ReceiverSignature) {
+						c.Violate("C19", "storage-read-changes-transaction", fmt.Sprintf("%s: the transaction read from storage differs (err %v)", what, err2), info)
+					}
+					cp := v
+					prevStored = &cp
+					if firstRead == nil {
+						fr, fo := r1, v
+						firstRead, firstOrig = &fr, &fo
+					}
+				}
 			}
 			tenc, _ := v.Transaction.Encode()
 			tdec, err := transaction.Decode(tenc)
